@@ -59,12 +59,14 @@ def gen_plan(seed, index, tier):
     fam = ["eg_cls", "eg_reg", "to"][index % 3] if index < 30 else rng.choices(["eg_cls", "eg_reg", "to"], [0.35, 0.3, 0.35])[0]
     plan = {"v": 1, "family": fam}
     if fam == "eg_cls":
-        rows = gen_dataset(rng)
+        # (3 groups, larger steps and no LP step make it likelier that the returned iterate's index is not in
+        # predictor-id order - the condition under which weight/predictor pairing slips become visible)
+        rows = gen_dataset(rng, ngroups=rng.choice([2, 3, 3]), nmin=12)
         bound_kind = rng.choice(["diff", "ratio"])
         plan.update(rows=rows, moment=rng.choice(MOMENTS), bound_kind=bound_kind,
                     bound=rng.choice([0.0, 0.01, 0.05]), ratio=1.0 if bound_kind == "diff" else rng.choice([0.5, 0.8, 1.0]),
-                    eps=rng.choice([0.01, 0.05, 0.1]), max_iter=rng.choice([2, 3, 5, 8, 12]), lp=rng.random() < 0.5,
-                    eta0=rng.choice([0.5, 2.0, 5.0]))
+                    eps=rng.choice([0.01, 0.02, 0.05]), max_iter=rng.choice([3, 5, 8, 12, 20]), lp=rng.random() < 0.35,
+                    eta0=rng.choice([2.0, 5.0, 10.0]))
         vals = sorted({r[0] for r in rows})
         plan["xq"] = [rng.choice(vals + [99]) for _ in range(rng.choice([1, 1, 2, 3, 5, 8, 12]))]
     elif fam == "eg_reg":
